@@ -12,6 +12,7 @@ def fails : Stmt → Bool
   | .queryFail => true
   | .partialFail _ => true
   | .startFail _ _ => true
+  | .autoRollback => true
   | _ => false
 
 def isCtl : Stmt → Bool
